@@ -552,7 +552,14 @@ func leavesOf(v ssa.Value) []ssa.Value {
 				return
 			}
 			out = append(out, x)
-		case *ssa.Parameter, *ssa.Phi, *ssa.Extract, *ssa.FreeVar:
+		case *ssa.Phi:
+			// a loop cursor (end := start; for … { end++ }) is built from what flows into it: the phi
+			// itself is a leaf (a test may mention it) and so is everything on its edges
+			out = append(out, x)
+			for _, e := range y.Edges {
+				walk(e, depth+1)
+			}
+		case *ssa.Parameter, *ssa.Extract, *ssa.FreeVar:
 			out = append(out, x)
 		}
 	}
